@@ -23,10 +23,14 @@ Definition F_DECIMAL : N := 6.
 
 (* Column.server_default: DefaultClause(arg) with arg a Python str (DLit, rendered by SQLAlchemy as a quoted SQL
    literal) or a text() clause (DExpr, rendered verbatim); strings are lists of code points *)
-Inductive dflt := DLit (s:list N) | DExpr (s:list N).
-Definition d_txt (d:dflt) : list N := match d with DLit s | DExpr s => s end.
+(* ... or Computed(sqltext, persisted=None|True|False): a generated column (GENERATED ALWAYS AS (sqltext) [STORED|VIRTUAL]) *)
+Inductive dflt := DLit (s:list N) | DExpr (s:list N) | DComputed (s:list N) (persisted:option bool).
+Definition d_txt (d:dflt) : list N := match d with DLit s | DExpr s | DComputed s _ => s end.
+Definition is_computed (d:option dflt) : bool := match d with Some (DComputed _ _) => true | _ => false end.
 
-Record col := mkCol { c_name : N; c_ty : ty; c_null : bool; c_pk : bool; c_default : option dflt }.
+(* c_null_set: nullable= was given explicitly (Column._user_defined_nullable is not NULL_UNSPECIFIED); when it is not,
+   c_null is SQLAlchemy's default `not primary_key` *)
+Record col := mkCol { c_name : N; c_ty : ty; c_null : bool; c_pk : bool; c_default : option dflt; c_null_set : bool }.
 
 (* unique constraint (name, columns) / index (name, columns, unique) *)
 Inductive cons := Uq (n:N) (cols:list N) | Ix (n:N) (cols:list N) (u:bool).
@@ -54,11 +58,12 @@ Definition opt_eqb {A} (e:A->A->bool) (a b:option A) : bool :=
 Definition dflt_eqb (a b:dflt) : bool :=
   match a, b with
   | DLit s, DLit s' | DExpr s, DExpr s' => list_eqb N.eqb s s'
+  | DComputed s p, DComputed s' p' => list_eqb N.eqb s s' && opt_eqb Bool.eqb p p'
   | _, _ => false
   end.
 Definition col_eqb (a b:col) : bool :=
   N.eqb (c_name a) (c_name b) && ty_eqb (c_ty a) (c_ty b) && Bool.eqb (c_null a) (c_null b) && Bool.eqb (c_pk a) (c_pk b)
-  && opt_eqb dflt_eqb (c_default a) (c_default b).
+  && opt_eqb dflt_eqb (c_default a) (c_default b) && Bool.eqb (c_null_set a) (c_null_set b).
 Definition fkopts_eqb (a b:fkopts) : bool :=
   opt_eqb (list_eqb N.eqb) (o_onupdate a) (o_onupdate b) && opt_eqb (list_eqb N.eqb) (o_ondelete a) (o_ondelete b)
   && opt_eqb Bool.eqb (o_deferrable a) (o_deferrable b) && opt_eqb (list_eqb N.eqb) (o_initially a) (o_initially b).
@@ -110,7 +115,8 @@ Definition op_table (o:op) : N :=
 Definition alter_col (m_null:option bool) (m_ty:option ty) (m_default:option (option dflt)) (c:col) : col :=
   mkCol (c_name c) (match m_ty with Some t => t | None => c_ty c end)
         (match m_null with Some b => b | None => c_null c end) (c_pk c)
-        (match m_default with Some d => d | None => c_default c end).
+        (match m_default with Some d => d | None => c_default c end)
+        (match m_null with Some _ => true | None => c_null_set c end).
 
 (* effect of an operation on the column list / on the constraint+index list of its table *)
 Definition apply_cop (o:op) (cs:list col) : list col :=
@@ -128,7 +134,9 @@ Definition apply_kop (o:op) (ks:list cons) : list cons :=
   end.
 Definition apply_fop (o:op) (fs:list fk) : list fk :=
   match o with
-  | OpAddFk _ f => fs ++ [f]
+  (* batch mode keeps the table's named constraints in a dict keyed by name (ApplyBatchImpl.named_constraints): adding a key
+     whose name is already there replaces the old one *)
+  | OpAddFk _ f => (if f_named f then kremove f_name (f_name f) fs else fs) ++ [f]
   | OpDropFk _ n _ => kremove f_name n fs
   | _ => fs
   end.
@@ -185,11 +193,18 @@ Definition sqlite_stored_default (d:dflt) : list N :=
   match d with
   | DLit s => ch_quote :: dbl_quotes s ++ [ch_quote]
   | DExpr s => if wrapped ch_lpar ch_rpar s then unwrap s else s
+  | DComputed s _ => s
   end.
 Definition autogen_column_reflect (dflt_text:list N) : list N :=
   if guess_if_default_is_unparenthesized_sql_expr dflt_text then ch_lpar :: dflt_text ++ [ch_rpar] else dflt_text.
-Definition reflect_default (d:dflt) : dflt := DExpr (autogen_column_reflect (sqlite_stored_default d)).
-Definition reflect_col (c:col) : col := mkCol (c_name c) (c_ty c) (c_null c) (c_pk c) (option_map reflect_default (c_default c)).
+(* a generated column comes back as Computed(sqltext, persisted = (it was declared STORED)); nullable is always explicit on a
+   reflected column *)
+Definition reflect_default (d:dflt) : dflt :=
+  match d with
+  | DComputed s p => DComputed s (Some (match p with Some true => true | _ => false end))
+  | _ => DExpr (autogen_column_reflect (sqlite_stored_default d))
+  end.
+Definition reflect_col (c:col) : col := mkCol (c_name c) (c_ty c) (c_null c) (c_pk c) (option_map reflect_default (c_default c)) true.
 (* foreign key options: SQLAlchemy's SQLite dialect parses them out of the stored CREATE TABLE text case-insensitively and
    reports them upper-cased; ON DELETE / ON UPDATE NO ACTION is reported as absent; DEFERRABLE / NOT DEFERRABLE as True / False *)
 Definition reflect_action (a:option (list N)) : option (list N) :=
@@ -204,7 +219,9 @@ Definition reflect_sqlite (S:schema) : schema := map reflect_table S.
 Definition all_in (xs ys:list N) : bool := forallb (fun x => memN x ys) xs.
 Definition wf_cons (colnames:list N) (k:cons) : bool :=
   match k_cols k with [] => false | _ => true end && nodupb (k_cols k) && all_in (k_cols k) colnames.
-Definition wf_col (c:col) : bool := implb (c_pk c) (negb (c_null c)).
+Definition wf_col (c:col) : bool :=
+  implb (c_pk c) (negb (c_null c)) && (c_null_set c || Bool.eqb (c_null c) (negb (c_pk c)))
+  && negb (c_pk c && is_computed (c_default c)).
 Definition wf_fk (colnames:list N) (f:fk) : bool :=
   match f_cols f with [] => false | _ => true end && nodupb (f_cols f) && all_in (f_cols f) colnames
   && Nat.eqb (length (f_cols f)) (length (f_rcols f))
@@ -226,6 +243,12 @@ Definition dflt_ok (d:dflt) : bool :=
   | DLit s => plain s
   | DExpr s => (plain s && trimmed s) || (wrapped ch_quote ch_quote s && plain (unwrap s))
                || (wrapped ch_lpar ch_rpar s && plain (unwrap s) && trimmed (unwrap s))
+  | DComputed _ _ => true       (* never compared *)
   end.
+(* foreign key names are used consistently by the two schemas: a name of B that also names a key of the same table in A
+   which stays (its signature is still wanted by B) names that same signature.  Otherwise the comparison, which matches
+   foreign keys by signature only, adds the B key under a name that is still taken (see C06_converge_fkname_refuted). *)
+Definition fk_names_okb (sig_eqb:fk->fk->bool) (fc fm:list fk) : bool :=
+  forallb (fun mf => forallb (fun cf => implb (N.eqb (f_name cf) (f_name mf) && f_named mf && existsb (sig_eqb cf) fm) (sig_eqb mf cf)) fc) fm.
 Definition defaults_ok (S:schema) : bool :=
   forallb (fun t => forallb (fun c => match c_default c with Some d => dflt_ok d | None => true end) (t_cols t)) S.
